@@ -4,6 +4,9 @@ set -e
 cd "$(dirname "$0")"
 export GOFLAGS=-mod=mod GOPROXY=off GOSUMDB=off GOTOOLCHAIN=local CGO_ENABLED=0
 mkdir -p .work evidence replays
+# regenerate the source-derived Lean files, then build all proofs and the driver
+(cd harness && cp "${VERIF_REPO:-/repo}/go.sum" go.sum && go build -o ../.work/tr ./tr)
+./.work/tr random "${VERIF_REPO:-/repo}" lean/Chihaya/Gen/Random.lean
 (cd lean && lake build Chihaya modeldrv)
 (cd harness && cp "${VERIF_REPO:-/repo}/go.sum" go.sum && go build -tags verif -o ../.work/hx-warm ./hx && rm -f ../.work/hx-warm)
 echo setup ok
